@@ -1358,7 +1358,7 @@ def translate(text, roots, stubs=(), rename=None):
         if n in M.aliases and M.aliases[n].kind == 'glob': continue
         f = M.funcs.get(n)
         if f is None or n.startswith('llvm.') or n in stubs: continue
-        if n in ('memcpy', 'memset', 'memmove', 'malloc', 'free', 'strlen', 'memcmp', 'abort', 'calloc', 'realloc', 'strcmp', 'strncmp', 'strcpy', 'strncpy', 'memchr', 'bcmp'): continue
+        if n in ('memcpy', 'memset', 'memmove', 'malloc', 'free', 'strlen', 'memcmp', 'abort', 'calloc', 'realloc', 'strcmp', 'strncmp', 'strcpy', 'strncpy', 'memchr', 'bcmp', 'strtoul', 'strtol', 'atoi', 'printf', 'snprintf', 'sprintf', 'fprintf', 'getpid', 'time', 'strchr', 'strrchr', 'strstr', 'strdup', 'getenv', 'syslog', 'strcasecmp', 'strncasecmp', 'strerror', 'toupper', 'tolower', 'isspace', 'exit', '__errno_location', 'gmtime', 'strftime'): continue
         ps = [E.cty(t) for (t, pn, a) in f['params']]
         if f['vararg']: ps.append('...')
         protos.append('%s %s(%s);' % (E.cty(f['ret']), E.fname(n), ', '.join(ps) or 'void'))
